@@ -164,6 +164,7 @@ def run(tier, seed, log=print):
 
 def _attach(cls):
     """Insert a page of each member first on a fresh index; the created prefix sets must agree."""
+    env.reset_process_state()
     seen = {}
     for m in sorted(cls):
         w = World(Cfg("subdomain", backend="memory"))
@@ -173,6 +174,27 @@ def _attach(cls):
                 return cls, "inserting a page under %s failed: %s" % (L.show(m), tr.exc)
             created = frozenset(p for pl in (tr.created or {}).values() for p in pl)
             seen[m] = created
+        finally:
+            w.close()
+    # a class partly owned already: the rest is attached, and expanding again afterwards (in
+    # the same process, on the same object) still gives the same class
+    members = sorted(cls)
+    mm = L.rule_re("subdomain").search(members[0] + b"p:zz|") if members else None
+    if len(members) >= 2 and mm is not None and mm.group() == members[0]:
+        th = env.load()["th"]
+        before = {m: list(th.lru_variations(m)) for m in members}
+        w = World(Cfg("subdomain", backend="memory"))
+        try:
+            tr0 = w.apply(("create", (members[-1],)))
+            tr = w.apply(("page", members[0] + b"p:zz|", False))
+            if tr0.exc is None and tr.exc is None:
+                created = frozenset(p for pl in (tr.created or {}).values() for p in pl)
+                if created != frozenset(members[:-1]):
+                    return cls, "with %s already owned, a page under %s attached {%s}; the rest of its class is {%s}" % (L.show(members[-1]), L.show(members[0]), ", ".join(sorted(L.show(p) for p in created)), ", ".join(L.show(p) for p in members[:-1]))
+            for m in members:
+                again = list(w.t.expand_prefix(m))
+                if again != before[m]:
+                    return cls, "expanding %s again after a creation gives %s, before it gave %s" % (L.show(m), [L.show(x) for x in again], [L.show(x) for x in before[m]])
         finally:
             w.close()
     vals = set(seen.values())
